@@ -266,8 +266,8 @@ func parseNetFinal(resp string) (term []bool, c []int, ok bool) {
 // netVerdict compares the real run with the network counting model (Props/C05's theorems are about this
 // model). A channel of capacity B holds B items, and a reader that waits for its other in-port holds one
 // more in hand, so the real system lies between the model with B and with B+1: if the model with B
-// terminates the real run must, if the model with B+1 deadlocks the real run must; when both terminate
-// every process has executed exactly the model's number of tasks.
+// terminates the real run must; when both terminate every process has executed exactly the model's number
+// of tasks. (A stuck process of the model need not stop the real Run: see below.)
 func netVerdict(ctx *Ctx, c c05Case, rr *RunRes) {
 	if c.Buf < 1 {
 		return
@@ -307,7 +307,9 @@ func netVerdict(ctx *Ctx, c c05Case, rr *RunRes) {
 		ctx.Res.Disagree(Violation{What: fmt.Sprintf("the network model (B=%d) runs to completion, the real workflow deadlocked", c.Buf), Class: "c05.net", Witness: c})
 	}
 	if !all(thi) && realOK {
-		ctx.Res.Disagree(Violation{What: fmt.Sprintf("the network model (B=%d) ends stuck with unreturned processes (%s), the real workflow returned normally", c.Buf+1, hi), Class: "c05.net", Witness: c})
+		// not a disagreement: Run returns when the driver and the sink are done; a process blocked for ever on
+		// an abandoned port (F20) is then simply left behind as a sleeping goroutine
+		ctx.Res.Count("net-model=stuck-process-but-run-returned")
 	}
 	if all(tlo) && realOK {
 		started := map[string]int{}
